@@ -773,7 +773,7 @@ impl Register {
 impl Aml for Register {
     fn to_aml_bytes(&self, sink: &mut dyn AmlSink) {
         sink.byte(REGDESC); /* Register Descriptor */
-        sink.word(0x12); // length
+        sink.word(12); // length: the 12-byte generic address structure
         self.reg.to_aml_bytes(sink);
     }
 }
